@@ -9,8 +9,8 @@ PROPS_FILE = "C07.v"
 BACKENDS = [("inplace", [0]), ("ir", [0, 2]), ("bc", [0, 2]), ("jit", [0, 2])]
 BUDGETS_QUICK = [0, 1, 2, 3, 5, 8, 13, 40, 200, 5000, 1 << 62]
 BUDGETS_THOROUGH = list(range(0, 25)) + [32, 50, 64, 100, 128, 255, 256, 257, 1000, 5000, 65536, 1 << 32, 1 << 62]
-COUNTS_QUICK = {"emptyspin": 40, "tailloop": 40, "ifnest": 40, "uniform": 120, "macro": 60, "affine": 60, "diverge": 40, "roam": 10}
-COUNTS_THOROUGH = {"emptyspin": 300, "tailloop": 300, "ifnest": 300, "uniform": 750, "macro": 300, "affine": 300, "diverge": 100, "roam": 50}
+COUNTS_QUICK = {"runwalk": 50, "emptyspin": 40, "tailloop": 40, "ifnest": 40, "uniform": 120, "macro": 60, "affine": 60, "diverge": 40, "roam": 10}
+COUNTS_THOROUGH = {"runwalk": 300, "emptyspin": 300, "tailloop": 300, "ifnest": 300, "uniform": 750, "macro": 300, "affine": 300, "diverge": 100, "roam": 50}
 BIG = 1 << 62
 
 
@@ -78,6 +78,7 @@ def run(res):
     n_d = len(cases) - n_h
     stats = {"runs": 0, "violations": 0, "model_compared": 0, "model_disagreements": 0, "finished_runs": 0, "interrupted_runs": 0}
     reported = 0
+    corr = []
     for backend, levels in BACKENDS:
         for level in levels:
             # dumps for the model side (ir / bc engines); in-place runs on the source
@@ -133,12 +134,10 @@ def run(res):
                             stats["model_compared"] += 1
                             if (mfin, mtr) != (fin, tr):
                                 stats["model_disagreements"] += 1
-                                if not bad and reported < 6:
-                                    reported += 1
-                                    res.violation("limited %s engine model and implementation disagree (budget %d, level %d) on %r: model %s impl %s — the per-engine budget theorems no longer describe the code"
+                                if not bad and len(corr) < 6:
+                                    corr.append(("limited %s engine model and implementation disagree (budget %d, level %d) on %r: model %s impl %s — the per-engine budget theorems no longer describe the code"
                                                   % (backend, b, level, c.src[:150], model[i][:120], out[i][:120]),
-                                                  {"case": c.to_json(), "backend": backend, "level": level, "budget": b, "model": model[i], "implementation": out[i], "which": "engine-correspondence"},
-                                                  no_failing_input=True)
+                                                  {"case": c.to_json(), "backend": backend, "level": level, "budget": b, "model": model[i], "implementation": out[i], "which": "engine-correspondence"}))
                     if bad:
                         stats["violations"] += 1
                         if reported < 6:
@@ -146,6 +145,11 @@ def run(res):
                             res.violation("C07 %s level %d budget %d width %d: %s; program %r env %s got %s canonical %s"
                                           % (backend, level, b, c.w, bad, c.src[:200], c.env, out[i][:150], (c.canon or "")[:150]),
                                           {"case": c.to_json(), "backend": backend, "level": level, "budget": b, "implementation": out[i], "mode": "limited", "why": bad})
+    # a model/implementation disagreement alone is a broken correspondence; concrete violations of the property
+    # (reported above as they were met) come first, so the disagreements are only reported when there are none,
+    # or in addition while there is room
+    for msg, rep_ in corr[: max(2, 6 - reported)]:
+        res.violation(msg, rep_, no_failing_input=True)
     res.coverage.update({
         "programs": len(cases), "disagreements_checked": stats["runs"],
         "samples": [dict(c.to_json(), cls=c.meta["class"]) for c in cases[:: max(1, len(cases) // 8)]][:8],
